@@ -22,7 +22,7 @@ func init() {
 	register(&Rule{ID: "C17.c", Doc: "no goroutines, channels, clocks, randomness or environment in library code; files read only in LoadFontConfig/main", Floor: 3, Run: c17c})
 	register(&Rule{ID: "C17.e", Doc: "the separator between top-level outputs depends only on whether something was emitted before", Floor: 3, Run: c17e})
 	register(&Rule{ID: "C17.f", Doc: "wiring: each command-line option reaches the constructor parameter and the field of its meaning, with its documented default; the lexer starts at line 1", Floor: 10, Run: c17f})
-	register(&Rule{ID: "C17.d", Doc: "emitter state is immutable after New; parser cross-statement state is the allowed set", Floor: 3, Run: c17d})
+	register(&Rule{ID: "C17.d", Doc: "emitter state is immutable after New; parser cross-statement state is the allowed set", Floor: 23, Run: c17d})
 }
 
 func isTestFunc(w *World, fn *ssa.Function) bool {
